@@ -1586,8 +1586,14 @@ def strip(e):
     IDENT = ('::clone', 'AsRef::as_ref', 'Option::<T>::as_ref', 'Option::<T>::as_deref', 'Deref::deref',
              'Borrow::borrow', 'Option::<T>::copied', 'Option::<T>::cloned', 'String::as_str', 'to_owned',
              'ToString::to_string', 'Vec::<T, A>::as_slice', 'std::convert::Into::into', 'From::from', 'Option::<&T>::copied', 'Option::<&T>::cloned')
-    while isinstance(e, tuple) and e and e[0] == 'call' and len(e[2]) == 1 and any(e[1].endswith(s) or e[3].endswith(s) for s in IDENT):
-        e = e[2][0]
+    while isinstance(e, tuple) and e:
+        if e[0] == 'call' and len(e[2]) == 1 and any(e[1].endswith(s) or e[3].endswith(s) for s in IDENT):
+            e = e[2][0]
+        elif e[0] == 'cast' and len(e) == 5 and e[1] == 'Transmute' and str(e[2]).startswith('std::ptr::NonNull<') and isinstance(e[4], tuple) and \
+                e[4][0] == 'field' and e[4][2] == 'pointer' and isinstance(e[4][1], tuple) and e[4][1][0] == 'field' and e[4][1][2] == '0':
+            e = e[4][1][1]          # `*boxed` in MIR: the Box's Unique pointer transmuted to a raw pointer
+        else:
+            break
     return e
 
 
